@@ -342,14 +342,21 @@ class JSArray(JSObject):
         return UNDEFINED
 
     def set_index(self, index: int, value: JSValue) -> None:
+        from .errors import JSTypeError
+
         if index < 0:
-            raise IndexError("Negative array index")
+            raise JSTypeError("Negative array index")
         if index >= len(self._elements):
             # Extend array (stricter mode: only allow append at end)
             if index == len(self._elements):
                 self._elements.append(value)
             else:
-                raise IndexError("Array index out of bounds (stricter mode)")
+                # No holes: only existing elements and the next free index
+                # can be written
+                raise JSTypeError(
+                    f"Cannot set index {index} of an array of length "
+                    f"{len(self._elements)}: out-of-bound writes are not supported"
+                )
         else:
             self._elements[index] = value
 
